@@ -16,7 +16,7 @@ From Coq Require Import Permutation.
 From TSG Require Import Model.Lazy Model.Run Proofs.MonadFacts Proofs.SLExpr Proofs.StrictLazy Proofs.SL2Whole Proofs.SL2Adequate
   Proofs.SLFailGraph Proofs.SLFailExpr Proofs.SLFailStmt
   Proofs.BlockPermRen Proofs.BlockPermGraph Proofs.BlockPermDen Proofs.BlockPermSwap Proofs.BlockPermExec Proofs.BlockPermFuel Proofs.BlockPermRun
-  Proofs.ScPermExec Proofs.ScPermRun Proofs.NoPanicStrict Proofs.NoPanicLazy.
+  Proofs.ScPermSwap Proofs.ScPermExec Proofs.ScPermRun Proofs.NoPanicStrict Proofs.NoPanicLazy.
 
 (* ---------------- bridges between the hypotheses of the two families ---------------- *)
 Lemma call_ok_pure_fn call f : call_ok call f -> pure_fn call f.
@@ -41,6 +41,36 @@ Proof.
 Qed.
 Lemma file_ok_pm_ok okfn fl ms : file_ok okfn fl (f_stanzas fl) ms -> Forall (pm_ok fl okfn) (lmatches_of ms).
 Proof. intros H. apply (file_ok_pm_ok_from okfn fl ms (f_stanzas fl) [] 0); [reflexivity|reflexivity|exact H]. Qed.
+
+(* the intersection fragment with scoped variables in the shape of file_ok2: stanza by stanza, every match satisfies BOTH predicates *)
+Fixpoint file_ok_any2 (okfn : ident -> Prop) (purev : ident -> bool) (fl : file) (sts : list stanza) (ms : list (list qmatch)) : Prop :=
+  match sts, ms with
+  | st :: sts', m :: ms' => Forall (fun q => match_ok2 okfn purev fl st q /\ block_ok2 fl okfn st q) m /\ file_ok_any2 okfn purev fl sts' ms'
+  | _, [] => True
+  | [], _ :: _ => False
+  end.
+Lemma file_ok_any2_ok2 okfn purev fl : forall sts ms, file_ok_any2 okfn purev fl sts ms -> file_ok2 okfn purev fl sts ms.
+Proof.
+  induction sts as [|st sts IH]; intros [|m ms] H; cbn [file_ok_any2 file_ok2] in *; try exact H; try exact I.
+  destruct H as [Hm Hr]. split; [|apply IH, Hr]. eapply Forall_impl; [|exact Hm]. intros q [Hq _]. exact Hq.
+Qed.
+Lemma file_ok_any2_pm_ok2_from okfn purev fl : forall ms sts pre i, f_stanzas fl = pre ++ sts -> length pre = N.to_nat i ->
+  file_ok_any2 okfn purev fl sts ms -> Forall (pm_ok2 fl okfn) (lmatches_from i ms).
+Proof.
+  induction ms as [|m ms IH]; intros sts pre i E Hl Hok; cbn [lmatches_from]; [constructor|].
+  destruct sts as [|st sts]; cbn [file_ok_any2] in Hok; [contradiction|]. destruct Hok as [Hm Hrest].
+  apply Forall_app. split.
+  - apply Forall_forall. intros pm Hin. apply in_map_iff in Hin. destruct Hin as (q & <- & Hq).
+    rewrite Forall_forall in Hm. destruct (Hm q Hq) as [_ H2].
+    intros st0 E0. cbn [fst snd] in *. rewrite E, <- Hl, nth_error_app2, Nat.sub_diag in E0 by lia. cbn [nth_error] in E0.
+    inversion E0; subst st0. exact H2.
+  - apply (IH sts (pre ++ [st]) (i + 1)); [rewrite <- app_assoc; exact E|rewrite app_length; cbn [length]; lia|exact Hrest].
+Qed.
+Lemma file_ok_any2_split okfn purev fl ms : file_ok_any2 okfn purev fl (f_stanzas fl) ms ->
+  file_ok2 okfn purev fl (f_stanzas fl) ms /\ Forall (pm_ok2 fl okfn) (lmatches_of ms).
+Proof.
+  intros H. split; [apply file_ok_any2_ok2, H|]. apply (file_ok_any2_pm_ok2_from okfn purev fl ms (f_stanzas fl) [] 0); [reflexivity|reflexivity|exact H].
+Qed.
 
 Lemma Forall_perm {A} (P : A -> Prop) l l' : Permutation l l' -> Forall P l -> Forall P l'.
 Proof. intros HP H. apply Forall_forall. intros x Hx. rewrite Forall_forall in H. apply H. eapply Permutation_in; [apply Permutation_sym, HP|exact Hx]. Qed.
